@@ -63,6 +63,23 @@ type DecodeProvider struct {
 
 var _ core.Provider = &DecodeProvider{}
 
+// passGuard ends the re-reading of a source that yields no ammo: when a whole pass over the
+// source did not decode a single ammo (e.g. it holds only white space), rewinding it cannot
+// yield anything new, so the rewind reports io.EOF instead.
+type passGuard struct {
+	io.ReadSeeker
+	decoded       *int // ammo decoded so far
+	decodedBefore int  // ... at the previous rewind
+}
+
+func (g *passGuard) Seek(offset int64, whence int) (int64, error) {
+	if *g.decoded == g.decodedBefore {
+		return 0, io.EOF
+	}
+	g.decodedBefore = *g.decoded
+	return g.ReadSeeker.Seek(offset, whence)
+}
+
 func (p *DecodeProvider) Run(ctx context.Context, deps core.ProviderDeps) (err error) {
 	p.ProviderDeps = deps
 	defer close(p.OutQueue)
@@ -79,8 +96,13 @@ func (p *DecodeProvider) Run(ctx context.Context, deps core.ProviderDeps) (err e
 	// Now problem solved by using MultiPassReader, but in such case decoder don't know real input
 	// position, so can't put this important information in decode error.
 	// TODO(skipor):  Let's add optional Reset(io.Reader) method, that will allow efficient Decoder reset after every pass.
-	multipassReader := ioutil2.NewMultiPassReader(source, p.conf.Passes)
-	if source == multipassReader {
+	var ammoNum int
+	var passSource io.Reader = source
+	if seeker, ok := source.(io.ReadSeeker); ok {
+		passSource = &passGuard{ReadSeeker: seeker, decoded: &ammoNum}
+	}
+	multipassReader := ioutil2.NewMultiPassReader(passSource, p.conf.Passes)
+	if passSource == multipassReader {
 		p.Log.Info("Ammo data source can't sought, so will be read only once")
 	}
 	decoder, err := p.newDecoder(deps, multipassReader)
@@ -88,7 +110,6 @@ func (p *DecodeProvider) Run(ctx context.Context, deps core.ProviderDeps) (err e
 	if err != nil {
 		return errors.WithMessage(err, "decoder construction failed")
 	}
-	var ammoNum int
 	for ; p.conf.Limit <= 0 || ammoNum < p.conf.Limit; ammoNum++ {
 		ammo := p.InputPool.Get()
 		err = decoder.Decode(ammo)
